@@ -272,7 +272,16 @@ func cmdCheck(args []string) int {
 	// ---- native replay of every counterexample
 	replayed := 0
 	if len(jobsR) > 0 {
-		ovFile, err := writeReplayOverlay(*repo, root, outDir)
+		ovFiles := map[string]string{}
+		var err error
+		for _, j := range jobsR {
+			if _, ok := ovFiles[j.run.group.Pkg]; !ok {
+				ovFiles[j.run.group.Pkg], err = writeReplayOverlay(*repo, root, outDir, j.run.group.Pkg)
+				if err != nil {
+					break
+				}
+			}
+		}
 		if err != nil {
 			fmt.Fprintln(os.Stderr, "replay overlay:", err)
 			bad++
@@ -291,7 +300,7 @@ func cmdCheck(args []string) int {
 					defer wg2.Done()
 					sem2 <- struct{}{}
 					defer func() { <-sem2 }()
-					j.out, j.gotObs = nativeReplay(*repo, ovFile, j.run.group.Pkg, j.run.harness, j.run.params, j.file)
+					j.out, j.gotObs = nativeReplay(*repo, ovFiles[j.run.group.Pkg], j.run.group.Pkg, j.run.harness, j.run.params, j.file)
 					if !j.sample {
 						j.repro = reproduces(j.out, j.v)
 					}
@@ -400,17 +409,30 @@ func loadKnownAll(path, property string) []knownFinding {
 // writeReplayOverlay materialises the generated API/test files under outDir and writes
 // the go build overlay that injects all harness files into /repo (nothing is written
 // to /repo).
-func writeReplayOverlay(repo, root, outDir string) (string, error) {
+// One overlay per package: only that package's harness files are injected, because a
+// harness may import other repository packages (e.g. ociserver's harness imports
+// ociclient) and injecting it while building their tests would create import cycles.
+func writeReplayOverlay(repo, root, outDir, pkg string) (string, error) {
 	hdir := filepath.Join(root, "harness")
-	ov, _, err := overlayFor(repo, hdir, true)
+	all, _, err := overlayFor(repo, hdir, true)
 	if err != nil {
 		return "", err
+	}
+	pkgDir := filepath.Join(repo, "ociregistry", pkg) + string(filepath.Separator)
+	if pkg == "" || pkg == "." {
+		pkgDir = filepath.Join(repo, "ociregistry") + string(filepath.Separator)
+	}
+	ov := map[string][]byte{}
+	for target, content := range all {
+		if filepath.Dir(target)+string(filepath.Separator) == pkgDir {
+			ov[target] = content
+		}
 	}
 	testTmpl, err := os.ReadFile(filepath.Join(hdir, "replay_test.go.tmpl"))
 	if err != nil {
 		return "", err
 	}
-	gen := filepath.Join(outDir, "gen")
+	gen := filepath.Join(outDir, "gen-"+sanitize(pkg))
 	os.MkdirAll(gen, 0o755)
 	repl := map[string]string{}
 	n := 0
@@ -429,7 +451,7 @@ func writeReplayOverlay(repo, root, outDir string) (string, error) {
 		}
 	}
 	b, _ := json.Marshal(map[string]interface{}{"Replace": repl})
-	f := filepath.Join(outDir, "overlay.json")
+	f := filepath.Join(outDir, "overlay-"+sanitize(pkg)+".json")
 	return f, os.WriteFile(f, b, 0o644)
 }
 
